@@ -201,8 +201,10 @@ func init() {
 		return nil
 	})
 	// ---- sync.Pool ----
-	reg("(*sync.Pool).Get", func(in *Interp, fn *ssa.Function, args []Value) Value {
-		c := cellArg(in, args[0])
+	// sync.Pool: Put keeps the item; Get may hand back a kept item (most recent
+	// first, as the per-P private slot does) or a fresh one from New — both are
+	// legal behaviours of the real pool, so Get forks when an item is available.
+	poolNew := func(in *Interp, c *Cell) Value {
 		st := c.T.Underlying().(*types.Struct)
 		for i := 0; i < st.NumFields(); i++ {
 			if st.Field(i).Name() == "New" {
@@ -214,8 +216,24 @@ func init() {
 			}
 		}
 		return Iface{}
+	}
+	reg("(*sync.Pool).Get", func(in *Interp, fn *ssa.Function, args []Value) Value {
+		c := cellArg(in, args[0])
+		s := in.syncOf(c)
+		if len(s.pool) > 0 && in.Eng.Choose(2, "sync.Pool.Get") == 0 {
+			v := s.pool[len(s.pool)-1]
+			s.pool = s.pool[:len(s.pool)-1]
+			return v
+		}
+		return poolNew(in, c)
 	})
-	reg("(*sync.Pool).Put", func(in *Interp, fn *ssa.Function, args []Value) Value { return nil })
+	reg("(*sync.Pool).Put", func(in *Interp, fn *ssa.Function, args []Value) Value {
+		s := in.syncOf(cellArg(in, args[0]))
+		if !in.isNilValue(args[1]) {
+			s.pool = append(s.pool, args[1])
+		}
+		return nil
+	})
 
 	// ---- sync/atomic functions ----
 	for _, ty := range []string{"Int32", "Int64", "Uint32", "Uint64", "Uintptr", "Pointer"} {
